@@ -1,6 +1,7 @@
 package rules
 
 import (
+	"os"
 	"fmt"
 	"go/types"
 	"sort"
@@ -96,14 +97,16 @@ func (l *sizeLookup) classify() {
 		spec := specFn(c)
 		hit := 0
 		for k, v := range spec {
-			if p, ok := l.at(k); ok && p.Known && p.Amb == "" && p.Val == v {
+			// for classification an ambiguous piece counts when the column's value is among its
+			// possible values (the ambiguity itself is reported by T1)
+			if p, ok := l.at(k); ok && p.Known && (p.Amb == "" && p.Val == v || p.Amb != "" && strings.Contains("|"+p.Amb+"|", "|"+fmt.Sprint(v)+"|")) {
 				hit++
 			}
 		}
 		// penalise known codes outside the spec column
 		extra := 0
 		for _, p := range l.Pieces {
-			if p.Known {
+			if p.Known && (p.Amb == "" || strings.ContainsAny(p.Amb, "0123456789")) {
 				for c := p.Iv.Lo; c <= p.Iv.Hi && c-p.Iv.Lo < 64; c++ {
 					if _, ok := spec[c]; !ok {
 						extra++
@@ -374,6 +377,9 @@ func funcLookups(p *an.Prog, r *an.Report) []*sizeLookup {
 			ev := &an.PEval{P: p, Select: qs.sel, Domain: qs.dom, MaxPaths: 4000}
 			outs, err := ev.Run(fn, rootArgs(fn))
 			if err != nil {
+				if os.Getenv("C10DEBUG") != "" {
+					fmt.Fprintln(os.Stderr, "C10DEBUG eval error", an.FnKey(fn), qs.label, err)
+				}
 				continue
 			}
 			for _, sl := range slots {
@@ -417,13 +423,26 @@ func funcLookups(p *an.Prog, r *an.Report) []*sizeLookup {
 				}
 				// table-like: at least 3 distinct known singleton codes with constant values, and
 				// the known set is small (a size lookup is defined on a handful of codes)
-				n := 0
+				n, nAmbConst := 0, 0
 				for _, pc := range l.Pieces {
 					if pc.Known && pc.Amb == "" && pc.Iv.Hi-pc.Iv.Lo < 8 {
 						n += int(pc.Iv.Hi - pc.Iv.Lo + 1)
 					}
+					// a code that yields a table constant on one path and something else on another
+					// (a cache, a fallback): still a size lookup, but no longer a function of the code
+					if pc.Known && pc.Amb != "" && pc.Iv.Hi-pc.Iv.Lo < 8 && strings.ContainsAny(pc.Amb, "0123456789") {
+						nAmbConst += int(pc.Iv.Hi - pc.Iv.Lo + 1)
+					}
 				}
-				if n >= 3 {
+				if os.Getenv("C10DEBUG") != "" && strings.Contains(an.FnKey(fn), os.Getenv("C10DEBUG")) {
+					fmt.Fprintln(os.Stderr, "C10DEBUG", l.Name, "n=", n, "amb=", nAmbConst, len(outs), "outcomes")
+					for _, pc := range l.Pieces {
+						if pc.Known {
+							fmt.Fprintln(os.Stderr, "   ", pc.Iv, pc.Val, pc.Amb)
+						}
+					}
+				}
+				if n >= 3 || nAmbConst >= 3 {
 					out = append(out, l)
 				}
 			}
